@@ -139,7 +139,8 @@ def run(ctx):
     g = weights.gate(ctx, 'R-C19-2')
     if g is not None:
         v = g[0]
-        labs = sorted({ctx.args(v, bb)[1][1] for bb, t in ctx.calls(v) if callee_name(t) in R.nonce_fns(ctx) and ctx.args(v, bb)[1].tag == 'const'})
+        nfn = R.nonce_fns(ctx)
+        labs = sorted({a[1][1] for (fr, bb, t, a) in ctx.flat_calls(v, lambda n, t: n in nfn, stop=nfn) if a[1].tag == 'const'})
         rep.check(labs == sorted(wire.NONCE_LABELS), 'R-C19-2', 'R-C19-2/labels/recoverer', 'recoverer nonce labels are %s' % [l.decode() for l in labs], 'recoverer nonce labels are %s' % labs, ctx.where(v))
 
     # ---- R-C19-3 generators
